@@ -74,12 +74,15 @@ def run(tier):
     rep.exhaustive = False
 
     # 3. float schedules and stock cases ----------------------------------------------------
-    fl = tdsfam.known_float_regressions() + tdsfam.float_schedules(40 if quick else 1500, rnd, tf_max=2.0 if quick else 4.0)
+    fl = tdsfam.known_float_regressions() + tdsfam.late_schedules() + tdsfam.float_schedules(40 if quick else 1500, rnd, tf_max=2.0 if quick else 4.0)
     out2 = tdsfam.run_and_validate(fl, rep, label="float schedules")
     tdsfam.judge(PID, out2, rep)
     st = tdsfam.stock_scenarios(limit=4 if quick else None)
     out3 = tdsfam.run_and_validate(st, rep, timeout=900, label="stock cases")
     tdsfam.judge(PID, out3, rep)
+
+    # 4. time-series updates (rows of a data file applied at their stamps) ------------------------------
+    timeseries(rep, quick, rnd)
 
     for sc, o in (out + out2 + out3)[:1] + out2[:2] + out3[:1]:
         if o["status"] == "ok":
@@ -88,11 +91,77 @@ def run(tier):
                 "TLC (Scen_TDSLoop) and %s; float schedules are seeded random; non-trivial = at least one event fired, "
                 "a step was rejected or the run was resumed" % ("sampled with VERIF_SEED" if quick else "replayed up to 12000"))
     rep.assume("1 model time unit = 1e-5 s when replayed; Newton outcome classes are abstracted in the model")
-    rep.assume("event effects observed through Toggle targets' u and Fault.uf; Alter/TimeSeries effects in thorough stock cases only")
+    rep.assume("event effects observed through Toggle targets' u, Fault.uf, Alter targets and the destination parameter of TimeSeries rows")
     return rep.finish()
 
 
+def timeseries(rep, quick, rnd):
+    import os
+    import shutil
+    from ..common import scratch_dir, NCPU
+    from ..pool import run_tasks
+    from .. import tracecheck
+    d = scratch_dir("tss")
+    try:
+        out = os.path.join(d, "s.json")
+        r = run_tlc("Scen_TimeSeries", "Scen_TimeSeries.cfg", workers=1, timeout=600, env={"OUT": out})
+        rep.add_tlc(r, "Scen_TimeSeries (stamp sets x step x segmentation)")
+        if not os.path.exists(out):
+            rep.machinery("time-series scenario enumeration failed", r["out"][-800:])
+            return
+        scen = json.load(open(out))["scen"]
+    finally:
+        shutil.rmtree(d, ignore_errors=True)
+    scen.sort(key=lambda x: json.dumps(x, sort_keys=True))
+    late = [x for x in scen if x["tf"] > 5000]
+    early = [x for x in scen if x["tf"] <= 5000]
+    rnd.shuffle(early)
+    rnd.shuffle(late)
+    chosen = (early[:40] + late[:6]) if quick else scen
+    scs = []
+    for k, x in enumerate(chosen):
+        stamps = [(t / 1000.0, 1.0 + 0.01 * (j + 1) * (-1) ** j) for j, t in enumerate(x["stamps"])]
+        scs.append(dict(tid=k + 1, sid="tseries[stamps=%s ms|step=%d ms|seg=%s|u=%d]" % (",".join(map(str, x["stamps"])), x["step"],
+                                                                                         "/".join(map(str, x["segs"])), x["u"]),
+                        case="kundur/kundur_full.json", stamps=stamps, tstep=(1 / 30 if x["step"] == 33 else x["step"] / 1000.0),
+                        segs=[t / 1000.0 for t in x["segs"]], u=x["u"]))
+    res = run_tasks("vh.tsdrv:run_ts", scs, nproc=NCPU, timeout=900)
+    traces = [x["result"] for x in res if x["status"] == "ok" and x["result"]["ev"]]
+    verdicts, tl = tracecheck.validate([dict(meta=t["meta"], ev=t["ev"]) for t in traces], "Trace_TimeSeries")
+    for t in tl:
+        rep.add_tlc(t, "Trace_TimeSeries")
+    for sc, x in zip(scs, res):
+        rep.count()
+        if x["status"] != "ok":
+            if x["status"] == "exc":
+                rep.machinery("driver exception in %s" % sc["sid"], x.get("error", "")[-1200:])
+            else:
+                rep.note("scenario %s ended with %s" % (sc["sid"], x["status"]))
+            continue
+        v = verdicts.get(sc["tid"])
+        if v is None:
+            if x["result"].get("skipped"):
+                continue
+            rep.machinery("trace %s not consumed" % sc["sid"])
+            continue
+        rep.traces += 1
+        rep.nontriv(sc["sid"])
+        for cl in v["viol"]:
+            rep.violation("%s:%s" % (cl, sc["sid"]), "clause %s fails for %s: %s first mismatch (t, value, expected) %s" % (
+                cl, sc["sid"], x["result"]["ev"], x["result"].get("first_bad")), replay=dict(kind="tseries", scenario=sc, record=x["result"]))
+        for dn in v["drift"]:
+            rep.note("time-series scenario %s: %s" % (sc["sid"], dn))
+    rep.extra["time_series_scenarios"] = len(scs)
+
+
 def replay(path):
+    d0 = json.load(open(path))
+    if d0["replay"].get("kind") == "tseries":
+        from .. import tsdrv
+        r = tsdrv.run_ts(d0["replay"]["scenario"])
+        print(json.dumps(r, indent=1)[:2000])
+        e = r["ev"][0] if r["ev"] else {}
+        return 0 if e and all(e.get(k, True) for k in ("applied_at_stamp", "step_ends_at_stamp", "increasing", "other_untouched")) else 1
     d = json.load(open(path))
     sc = d["replay"]["scenario"]
     rep = Report(PID, "quick")
